@@ -10,6 +10,7 @@ import (
 	"sort"
 	"strconv"
 	"strings"
+	"sync"
 	"time"
 
 	"github.com/btcsuite/btcd/blockchain"
@@ -150,6 +151,38 @@ func scribble(b []byte) {
 	}
 }
 
+// reuse runs an encoder/decoder on the SAME input objects three more times sequentially and from three
+// concurrent goroutines; every call must give the answer of the first one (inputs are values: created once,
+// reused, never changed by the callee). Returns "" when all agree.
+func reuse(first string, f func() string) string {
+	for k := 0; k < 3; k++ {
+		if f() != first {
+			return "reuse-differs"
+		}
+	}
+	var wg sync.WaitGroup
+	res := make([]string, 3)
+	for k := range res {
+		wg.Add(1)
+		go func(k int) {
+			defer wg.Done()
+			defer func() {
+				if recover() != nil {
+					res[k] = "panic"
+				}
+			}()
+			res[k] = f()
+		}(k)
+	}
+	wg.Wait()
+	for _, x := range res {
+		if x != first {
+			return "reuse-differs-concurrent"
+		}
+	}
+	return ""
+}
+
 // otherTxo is encoded right after the value under test: an encoder's result must be a value of its own.
 var otherTxo = txo{amount: 123456789, script: bytes.Repeat([]byte{0xab}, 40), height: 777777, cb: true}
 
@@ -177,8 +210,24 @@ func (P) Exec(line string) string {
 		return strconv.FormatUint(blockchain.VerifDecompressTxOutAmount(blockchain.VerifCompressTxOutAmount(u64(f[2]))), 10)
 	case "scr":
 		s := unhex(f[2])
-		buf, k := blockchain.VerifPutCompressedScript(s)
-		return fmt.Sprintf("%s %d %d", hexTok(buf), k, blockchain.VerifCompressedScriptSize(s))
+		orig := append([]byte{}, s...)
+		enc := func(s []byte) func() string {
+			return func() string {
+				buf, k := blockchain.VerifPutCompressedScript(s)
+				return fmt.Sprintf("%s %d %d", hexTok(buf), k, blockchain.VerifCompressedScriptSize(s))
+			}
+		}
+		out := enc(s)()
+		if r := reuse(out, enc(s)); r != "" {
+			return r
+		}
+		if !bytes.Equal(s, orig) {
+			return "input-modified"
+		}
+		if len(s) == 0 && enc(nil)() != out { // nil and empty-but-non-nil scripts are the same script
+			return "nil-differs"
+		}
+		return out
 	case "scrrt":
 		buf, _ := blockchain.VerifPutCompressedTxOut(0, unhex(f[2]))
 		_, script, n, err := blockchain.VerifDecodeCompressedTxOut(buf)
@@ -188,8 +237,24 @@ func (P) Exec(line string) string {
 		return hexTok(script)
 	case "txo":
 		s := unhex(f[3])
-		buf, k := blockchain.VerifPutCompressedTxOut(u64(f[2]), s)
-		return fmt.Sprintf("%s %d %d", hexTok(buf), k, blockchain.VerifCompressedTxOutSize(u64(f[2]), s))
+		orig := append([]byte{}, s...)
+		enc := func(s []byte) func() string {
+			return func() string {
+				buf, k := blockchain.VerifPutCompressedTxOut(u64(f[2]), s)
+				return fmt.Sprintf("%s %d %d", hexTok(buf), k, blockchain.VerifCompressedTxOutSize(u64(f[2]), s))
+			}
+		}
+		out := enc(s)()
+		if r := reuse(out, enc(s)); r != "" {
+			return r
+		}
+		if !bytes.Equal(s, orig) {
+			return "input-modified"
+		}
+		if len(s) == 0 && enc(nil)() != out {
+			return "nil-differs"
+		}
+		return out
 	case "untxo":
 		in := exact(unhex(f[2]))
 		a, s, n, err := blockchain.VerifDecodeCompressedTxOutRaw(in)
@@ -197,6 +262,18 @@ func (P) Exec(line string) string {
 			return "err"
 		}
 		out := fmt.Sprintf("ok %d %s %d", a, hexTok(s), n)
+		if r := reuse(out, func() string {
+			a, s, n, err := blockchain.VerifDecodeCompressedTxOutRaw(in)
+			if err != nil {
+				return "err"
+			}
+			return fmt.Sprintf("ok %d %s %d", a, hexTok(s), n)
+		}); r != "" {
+			return r
+		}
+		if !bytes.Equal(in, unhex(f[2])) {
+			return "input-modified"
+		}
 		scribble(in)
 		if fmt.Sprintf("ok %d %s %d", a, hexTok(s), n) != out {
 			return "aliased"
@@ -212,6 +289,19 @@ func (P) Exec(line string) string {
 			return "nil"
 		}
 		out := fmt.Sprintf("%s %d", hexTok(b), len(b))
+		scriptCopy := append([]byte{}, t.script...)
+		if r := reuse(out, func() string {
+			b, err := blockchain.VerifSerializeUtxoEntry(int64(t.amount), t.script, t.height, t.cb, false)
+			if err != nil {
+				return "err"
+			}
+			return fmt.Sprintf("%s %d", hexTok(b), len(b))
+		}); r != "" {
+			return r
+		}
+		if !bytes.Equal(t.script, scriptCopy) {
+			return "input-modified"
+		}
 		blockchain.VerifSerializeUtxoEntry(int64(otherTxo.amount), otherTxo.script, otherTxo.height, otherTxo.cb, false)
 		if fmt.Sprintf("%s %d", hexTok(b), len(b)) != out {
 			return "aliased"
@@ -227,6 +317,18 @@ func (P) Exec(line string) string {
 			return "bad-flags"
 		}
 		out := "ok " + txo{uint64(e.Amount()), e.PkScript(), e.BlockHeight(), e.IsCoinBase()}.String()
+		if r := reuse(out, func() string {
+			e, err := blockchain.VerifDeserializeUtxoEntryRaw(in)
+			if err != nil {
+				return "err"
+			}
+			return "ok " + txo{uint64(e.Amount()), e.PkScript(), e.BlockHeight(), e.IsCoinBase()}.String()
+		}); r != "" {
+			return r
+		}
+		if !bytes.Equal(in, unhex(f[2])) {
+			return "input-modified"
+		}
 		scribble(in)
 		if "ok "+(txo{uint64(e.Amount()), e.PkScript(), e.BlockHeight(), e.IsCoinBase()}).String() != out {
 			return "aliased"
@@ -236,6 +338,15 @@ func (P) Exec(line string) string {
 		st := parseTxo(f[2]).stxo()
 		buf, k := blockchain.VerifPutSpentTxOut(&st)
 		out := fmt.Sprintf("%s %d %d", hexTok(buf), k, blockchain.VerifSpentTxOutSerializeSize(&st))
+		if r := reuse(out, func() string {
+			buf, k := blockchain.VerifPutSpentTxOut(&st)
+			return fmt.Sprintf("%s %d %d", hexTok(buf), k, blockchain.VerifSpentTxOutSerializeSize(&st))
+		}); r != "" {
+			return r
+		}
+		if fromStxo(st).String() != parseTxo(f[2]).String() {
+			return "input-modified"
+		}
 		ot := otherTxo.stxo()
 		blockchain.VerifPutSpentTxOut(&ot)
 		if fmt.Sprintf("%s %d %d", hexTok(buf), k, blockchain.VerifSpentTxOutSerializeSize(&st)) != out {
@@ -249,6 +360,18 @@ func (P) Exec(line string) string {
 			return "err"
 		}
 		out := fmt.Sprintf("ok %s %d", fromStxo(st), n)
+		if r := reuse(out, func() string {
+			st, n, err := blockchain.VerifDecodeSpentTxOutRaw(in)
+			if err != nil {
+				return "err"
+			}
+			return fmt.Sprintf("ok %s %d", fromStxo(st), n)
+		}); r != "" {
+			return r
+		}
+		if !bytes.Equal(in, unhex(f[2])) {
+			return "input-modified"
+		}
 		scribble(in)
 		if fmt.Sprintf("ok %s %d", fromStxo(st), n) != out {
 			return "aliased"
@@ -261,6 +384,12 @@ func (P) Exec(line string) string {
 		}
 		ser := blockchain.VerifSerializeSpendJournalEntry(l)
 		out := hexTok(ser)
+		if r := reuse(out, func() string { return hexTok(blockchain.VerifSerializeSpendJournalEntry(l)) }); r != "" {
+			return r
+		}
+		if len(l) == 0 && hexTok(blockchain.VerifSerializeSpendJournalEntry([]blockchain.SpentTxOut{})) != out {
+			return "nil-differs"
+		}
 		blockchain.VerifSerializeSpendJournalEntry([]blockchain.SpentTxOut{otherTxo.stxo(), otherTxo.stxo()})
 		for i := range l { // the input list belongs to the caller and must be left as it was
 			if fromStxo(l[i]).String() != parseTxos(f[2])[i].String() {
@@ -298,6 +427,30 @@ func (P) Exec(line string) string {
 			return "ok " + showTxos(out)
 		}
 		out := show()
+		if r := reuse(out, func() string {
+			l2, err := blockchain.VerifDeserializeSpendJournalEntryRaw(in, txns)
+			if err != nil {
+				return "err"
+			}
+			o := make([]txo, len(l2))
+			for i := range l2 {
+				o[i] = fromStxo(l2[i])
+			}
+			return "ok " + showTxos(o)
+		}); r != "" {
+			return r
+		}
+		for i, tx := range txns { // the transactions belong to the caller
+			if f[3] != "-" && len(tx.TxIn) != int(u64(strings.Split(f[3], ",")[i])) {
+				return "input-modified"
+			}
+		}
+		if in == nil {
+			l3, err3 := blockchain.VerifDeserializeSpendJournalEntryRaw([]byte{}, txns)
+			if err3 != nil || len(l3) != len(l) {
+				return "nil-differs"
+			}
+		}
 		scribble(in)
 		if show() != out {
 			return "aliased"
